@@ -246,6 +246,7 @@ inductive Op where
   | clone (d s : Nat)                -- regs[d] = regs[s].clone()
   | test (r x : Nat)                 -- log.push(regs[r].test(x))
   | load (d : Nat) (ws : List Nat)   -- regs[d] = new(); then regs[d].set(i) for every set bit i of the words, ascending
+  | obs (r : Nat)                    -- olog.push(observation of regs[r] now): a mid-history observation, the state is not touched
   deriving Repr, DecidableEq
 
 /-- `regs[r]` of the harness's `Vec<Bitset<N>>`. -/
@@ -270,9 +271,52 @@ def setAll : Bits → List Nat → Except Panic Bits
 def loadBits (n : Nat) (ws : List Nat) : Except Panic Bits :=
   setAll (new n) (Spec.members (64 * ws.length) (Spec.ofWords ws))
 
+/-- One iterator probe: `k` elements were taken with `next`; `rest` is what the iterator yields afterwards. -/
+structure Probe where
+  k : Nat
+  rest : List Nat
+  deriving Repr, DecidableEq
+
+/-- the prefix lengths probed for a set with `l` members: 0, 1, 2, half way, `l - 1`, `l` (just exhausted: the last
+    `next` returned the last member) and `l + 1` (`next` has already answered `None` once). -/
+def probeKs (l : Nat) : List Nat := [0, 1, 2, l / 2, l - 1, l, l + 1].eraseDups
+
+/-- What the harness observes of one bitset: `test` on every index, `count`, the collected
+    `iter_bits`, the `Display` and the `Debug` rendering, and the iterator probes. -/
+structure RegObs where
+  tests : List Bool
+  count : Nat
+  iter : List Nat
+  disp : String
+  dbg : String
+  probes : List Probe
+  deriving Repr, DecidableEq
+
+def observeReg (n : Nat) (b : Bits) : Except Panic RegObs :=
+  match (List.range (64 * n)).mapM (test b) with
+  | .error e => .error e
+  | .ok ts =>
+    match count b with
+    | .error e => .error e
+    | .ok c =>
+      match iterBits b with
+      | .error e => .error e
+      | .ok it =>
+        match display b with
+        | .error e => .error e
+        | .ok ds =>
+          match debug b with
+          | .error e => .error e
+          | .ok dg =>
+            match (probeKs it.length).mapM (fun k => (restAfter b k).map (Probe.mk k)) with
+            | .error e => .error e
+            | .ok ps => .ok ⟨ts, c, it, ds, dg, ps⟩
+
+/-- The state of a history: the register file, the `test` log, and the log of mid-history observations (`obs r`). -/
 structure St where
   regs : List Bits
   log : List Bool
+  olog : List RegObs
   deriving Repr, DecidableEq
 
 def bin1 (s : St) (d r : Nat) (f : Bits → Except Panic Bits) : Except Panic St :=
@@ -321,6 +365,13 @@ def step (n : Nat) (s : St) : Op → Except Panic St
       | .error e => .error e
       | .ok t => .ok { s with log := s.log ++ [t] }
   | .load d ws => bin1 s d d (fun _ => loadBits n ws)
+  | .obs r =>
+    match getReg s.regs r with
+    | .error e => .error e
+    | .ok b =>
+      match observeReg n b with
+      | .error e => .error e
+      | .ok o => .ok { s with olog := s.olog ++ [o] }
 
 def run (n : Nat) (s : St) : List Op → Except Panic St
   | [] => .ok s
@@ -329,61 +380,28 @@ def run (n : Nat) (s : St) : List Op → Except Panic St
     | .error e => .error e
     | .ok s' => run n s' ops
 
-/-- One iterator probe: `k` elements were taken with `next`; `rest` is what the iterator yields afterwards. -/
-structure Probe where
-  k : Nat
-  rest : List Nat
-  deriving Repr, DecidableEq
+/-- derived `PartialEq::ne` (the provided method: `!(a == b)`). -/
+def bitsNe (a b : Bits) : Bool := !beq a b
 
-/-- the prefix lengths probed for a set with `l` members: 0, 1, 2 and `l - 1` (those that are `≤ l`). -/
-def probeKs (l : Nat) : List Nat := ([0, 1, 2, l - 1].filter (· ≤ l)).eraseDups
-
-/-- What the harness observes of one bitset: `test` on every index, `count`, the collected
-    `iter_bits`, the `Display` and the `Debug` rendering, and the iterator probes. -/
-structure RegObs where
-  tests : List Bool
-  count : Nat
-  iter : List Nat
-  disp : String
-  dbg : String
-  probes : List Probe
-  deriving Repr, DecidableEq
-
-def observeReg (n : Nat) (b : Bits) : Except Panic RegObs :=
-  match (List.range (64 * n)).mapM (test b) with
-  | .error e => .error e
-  | .ok ts =>
-    match count b with
-    | .error e => .error e
-    | .ok c =>
-      match iterBits b with
-      | .error e => .error e
-      | .ok it =>
-        match display b with
-        | .error e => .error e
-        | .ok ds =>
-          match debug b with
-          | .error e => .error e
-          | .ok dg =>
-            match (probeKs it.length).mapM (fun k => (restAfter b k).map (Probe.mk k)) with
-            | .error e => .error e
-            | .ok ps => .ok ⟨ts, c, it, ds, dg, ps⟩
-
-/-- Final observation of a history: every register, the `==` matrix, the `test` log. -/
+/-- Final observation of a history: every register, the `==` matrix, the `!=` matrix, the `test` log,
+    the mid-history observations. -/
 structure Obs where
   regs : List RegObs
   eqs : List (List Bool)
+  nes : List (List Bool)
   log : List Bool
+  olog : List RegObs
   deriving Repr, DecidableEq
 
 def observe (n : Nat) (s : St) : Except Panic Obs :=
   match s.regs.mapM (observeReg n) with
   | .error e => .error e
-  | .ok ros => .ok ⟨ros, s.regs.map (fun a => s.regs.map (fun b => beq a b)), s.log⟩
+  | .ok ros => .ok ⟨ros, s.regs.map (fun a => s.regs.map (fun b => beq a b)),
+      s.regs.map (fun a => s.regs.map (fun b => bitsNe a b)), s.log, s.olog⟩
 
 /-- The whole case: `k` registers `Bitset::<n>::new()`, run the history, observe. -/
 def runCase (n k : Nat) (ops : List Op) : Except Panic Obs :=
-  match run n ⟨List.replicate k (new n), []⟩ ops with
+  match run n ⟨List.replicate k (new n), [], []⟩ ops with
   | .error e => .error e
   | .ok s => observe n s
 
@@ -392,8 +410,15 @@ def runCase (n k : Nat) (ops : List Op) : Except Panic Obs :=
 structure SpecSt where
   regs : List Spec
   log : List Bool
+  olog : List Spec      -- the sets observed mid-history by `obs r`, in order
 
 def specGet (ms : List Spec) (r : Nat) : Spec := ms.getD r Spec.empty
+
+def specObserveReg (n : Nat) (m : Spec) : RegObs :=
+  let ms := Spec.members (64 * n) m
+  let d := Spec.display (64 * n) m
+  ⟨Spec.table (64 * n) m, ms.length, ms, d, d, (probeKs ms.length).map (fun k => ⟨k, ms.drop k⟩)⟩
+
 
 def specStep (s : SpecSt) : Op → SpecSt
   | .new d => { s with regs := List.set s.regs d Spec.empty }
@@ -412,20 +437,17 @@ def specStep (s : SpecSt) : Op → SpecSt
   | .clone d r => { s with regs := List.set s.regs d (specGet s.regs r) }
   | .test r x => { s with log := s.log ++ [(specGet s.regs r).mem x] }
   | .load d ws => { s with regs := List.set s.regs d (Spec.ofWords ws) }
+  | .obs r => { s with olog := s.olog ++ [specGet s.regs r] }     -- the set as it is now; rendered at the end
 
 def specRun (s : SpecSt) (ops : List Op) : SpecSt := ops.foldl specStep s
 
-def specObserveReg (n : Nat) (m : Spec) : RegObs :=
-  let ms := Spec.members (64 * n) m
-  let d := Spec.display (64 * n) m
-  ⟨Spec.table (64 * n) m, ms.length, ms, d, d, (probeKs ms.length).map (fun k => ⟨k, ms.drop k⟩)⟩
-
 def specObserve (n : Nat) (s : SpecSt) : Obs :=
   let tabs := s.regs.map (Spec.table (64 * n))     -- each characteristic vector is computed once
-  ⟨s.regs.map (specObserveReg n), tabs.map (fun a => tabs.map (fun b => decide (a = b))), s.log⟩
+  ⟨s.regs.map (specObserveReg n), tabs.map (fun a => tabs.map (fun b => decide (a = b))),
+    tabs.map (fun a => tabs.map (fun b => !decide (a = b))), s.log, s.olog.map (specObserveReg n)⟩
 
 def specRunCase (n k : Nat) (ops : List Op) : Obs :=
-  specObserve n (specRun ⟨List.replicate k Spec.empty, []⟩ ops)
+  specObserve n (specRun ⟨List.replicate k Spec.empty, [], []⟩ ops)
 
 /-- The stated domain of C12 for one step: `N ≥ 1`, registers exist, positions below `64 N`,
     constructor words are `u64`s. -/
@@ -446,6 +468,7 @@ def Op.inDomain (n k : Nat) : Op → Bool
   | .clone d r => decide (d < k) && decide (r < k)
   | .test r x => decide (r < k) && decide (x < 64 * n)
   | .load d ws => decide (d < k) && decide (ws.length ≤ n) && ws.all (fun w => decide (w < 2 ^ 64))
+  | .obs r => decide (r < k) && decide (64 * n + 64 ≤ 2 ^ 64)    -- observing needs the capacity guard `Cap n`
 
 /-- The capacity guard under which no `usize` computation of the code overflows
     (every `[u64; N]` that fits a 64-bit address space satisfies it with a wide margin). -/
@@ -500,25 +523,132 @@ def showOptNat : Option Nat → String
 /-- the `nth` arguments probed on an iterator with `rem` remaining elements -/
 def probeJs (rem : Nat) : List Nat := [0, 1, rem - 1, rem].eraseDups
 
+/-! #### std's provided `Iterator` methods as functions of the list the iterator still yields
+
+The harness calls every consuming / short-circuiting provided method of `Iterator` on a partially consumed `BitsIter`.
+Each is, by its std definition in terms of `next`, a function of `rest` (the list `next` still yields); these are the
+definitions, executed on both the model side (`rest` computed by stepping the model's `next`) and the spec side
+(`rest = members.drop k`; theorem `iter_remaining`). -/
+
+/-- `Iterator::cmp`: lexicographic comparison. -/
+def cmpLex : List Nat → List Nat → Ordering
+  | [], [] => .eq
+  | [], _ :: _ => .lt
+  | _ :: _, [] => .gt
+  | x :: xs, y :: ys => if x < y then .lt else if y < x then .gt else cmpLex xs ys
+
+def showOrd : Ordering → String
+  | .lt => "L"
+  | .eq => "E"
+  | .gt => "G"
+
+def b01 (b : Bool) : String := if b then "1" else "0"
+
+/-- number of elements left after a short-circuiting method stopped at the first element satisfying `p`
+    (that element is consumed); nothing is left when no element satisfies `p`. -/
+def leftAfter (p : Nat → Bool) (l : List Nat) : Nat := ((l.dropWhile (fun x => !p x)).drop 1).length
+
+/-- `max_by_key(key)` / `max_by`: the LAST element with the maximal key. -/
+def maxByKey (key : Nat → Nat) (l : List Nat) : Option Nat :=
+  l.foldl (fun acc x => match acc with
+    | none => some x
+    | some a => if key a ≤ key x then some x else some a) none
+
+/-- `min_by_key(key)` / `min_by`: the FIRST element with the minimal key. -/
+def minByKey (key : Nat → Nat) (l : List Nat) : Option Nat :=
+  l.foldl (fun acc x => match acc with
+    | none => some x
+    | some a => if key x < key a then some x else some a) none
+
+/-- `min_by(|a, b| b.cmp(a))`: the FIRST element that is minimal in the reversed order, i.e. the first maximal element. -/
+def minByRev (l : List Nat) : Option Nat :=
+  l.foldl (fun acc x => match acc with
+    | none => some x
+    | some a => if a < x then some x else some a) none
+
+/-- `step_by(3)`: the elements at positions 0, 3, 6, … (`c` = how many to skip before the next one taken). -/
+def everyThird : Nat → List Nat → List Nat
+  | _, [] => []
+  | 0, x :: xs => x :: everyThird 2 xs
+  | c + 1, _ :: xs => everyThird c xs
+
+/-- `is_sorted()`: every element is `≤` its successor. -/
+def isSortedLe : List Nat → Bool
+  | x :: y :: r => decide (x ≤ y) && isSortedLe (y :: r)
+  | _ => true
+
+/-- the order-sensitive hash the harness folds: `a.wrapping_mul(31).wrapping_add(x + 1)` on `u64`, from 7. -/
+def foldHash (l : List Nat) : Nat := (l.foldl (fun (a : UInt64) x => a * 31 + (x.toUInt64 + 1)) 7).toNat
+
+/-- `reduce(|a, b| a.wrapping_mul(3).wrapping_add(b))` on `usize`. -/
+def reduce3 : List Nat → Option Nat
+  | [] => none
+  | x :: xs => some (xs.foldl (fun (a : UInt64) b => a * 3 + b.toUInt64) x.toUInt64).toNat
+
+/-- The provided methods on an iterator that still yields `rest`; `full` is what a fresh `iter_bits()` yields. -/
+def showProvided (full rest : List Nat) : String :=
+  let rem := rest.length
+  let t := rest[rem / 2]?.getD 0                       -- pivot of the short-circuiting probes
+  let ge := fun x => decide (t ≤ x)
+  let c := cmpLex rest (rest.drop 1)                   -- against the same iterator advanced once more
+  let third := everyThird 0 rest
+  let ext := (2 ^ 64 - 1) :: rest                      -- `v = vec![usize::MAX]; v.extend(it)`
+  let zipped := List.zip rest full
+  let lg := toString (leftAfter ge rest)               -- what is left after stopping at the first element `≥ t`
+  let fh := toString (foldHash rest)
+  let anyGe := rest.any ge
+  ":f=" ++ fh ++ ":fe=" ++ fh ++
+  ":sm=" ++ toString rest.sum ++
+  ":pr=" ++ (if rem ≤ 4 then toString (rest.foldl (· * ·) 1) else "-") ++
+  ":mn=" ++ showOptNat rest.min? ++ ":mx=" ++ showOptNat rest.max? ++
+  ":xk=" ++ showOptNat (maxByKey (· % 64) rest) ++ ":nk=" ++ showOptNat (minByKey (· % 64) rest) ++
+  ":xb=" ++ showOptNat (maxByKey (· % 7) rest) ++ ":nb=" ++ showOptNat (minByRev rest) ++
+  ":ps=" ++ showOptNat (rest.findIdx? ge) ++ ">" ++ lg ++
+  ":fd=" ++ showOptNat (rest.find? (fun x => x % 64 = 63)) ++ ">" ++ toString (leftAfter (fun x => x % 64 = 63) rest) ++
+  ":fm=" ++ showOptNat ((rest.find? (fun x => x % 2 = 1)).map (· * 2)) ++ ">" ++ toString (leftAfter (fun x => x % 2 = 1) rest) ++
+  ":an=" ++ b01 anyGe ++ ">" ++ lg ++
+  ":al=" ++ b01 (rest.all (fun x => !ge x)) ++ ">" ++ lg ++
+  ":tf=" ++ (if anyGe then "-" else toString rem) ++ ">" ++ lg ++
+  ":rd=" ++ showOptNat (reduce3 rest) ++
+  ":cp=" ++ showOrd c ++ showOrd c ++ b01 (c == .eq) ++ b01 (c != .eq) ++ b01 (c == .lt) ++ b01 (c != .gt) ++
+      b01 (c == .gt) ++ b01 (c != .lt) ++
+  ":sb=" ++ toString third.length ++ ">" ++ showOptNat third.getLast? ++
+  ":tk=" ++ showOptNat (rest.take 2).getLast? ++ ":sw=" ++ showOptNat (rest.dropWhile (fun x => !ge x)).head? ++
+  ":ch=" ++ toString (rem + full.length) ++
+  ":zp=" ++ (match zipped.getLast? with | some (a, b) => toString a ++ "&" ++ toString b | none => "-") ++
+  ":en=" ++ (match rest.getLast? with | some x => toString (rem - 1) ++ "&" ++ toString x | none => "-") ++
+  ":ex=" ++ toString ext.length ++ ">" ++ showOptNat ext.getLast? ++
+  ":pt=" ++ toString (rest.filter (· % 2 = 0)).length ++ "&" ++ toString (rest.filter (· % 2 = 1)).length ++
+  ":is=" ++ b01 (isSortedLe rest)
+
+/-- the probes on which the harness also calls the methods of `showProvided`: the fresh iterator, one element taken
+    (inside a word), half way, and just exhausted. -/
+def providedKs (l : Nat) : List Nat := [0, 1, l / 2, l]
+
 /-- One probe as the harness prints it.  With `rest` the remaining elements: `count()` is its length,
     `last()` its last element, `nth(j)` its `j`-th element leaving `rem - (j+1)` behind (`by_ref().count()`),
     `peekable().peek()` its head (and `count()` still the full length), `skip(k).count()` on a fresh
-    iterator the same length, and `size_hint` must bracket the length (`h=ok`). -/
-def showProbe (n : Nat) (p : Probe) : String :=
+    iterator the same length, `size_hint` must bracket the length (`h=ok`), and (for the `k` of `providedKs`) the other
+    provided methods as in `showProvided`.  `r=sfx` says that `rest` is the collected list `full` (printed as `i=`) without its first `k` entries. -/
+def showProbe (n : Nat) (full : List Nat) (p : Probe) : String :=
   let rem := p.rest.length
   "k=" ++ toString p.k ++ ":c=" ++ toString rem ++ ":l=" ++ showOptNat p.rest.getLast? ++
-  ":r=" ++ showIter n p.rest ++
+  ":r=" ++ (if p.rest = full.drop p.k then "sfx" else showIter n p.rest) ++
   ":n=" ++ "/".intercalate ((probeJs rem).map (fun j =>
       toString j ++ ">" ++ showOptNat p.rest[j]? ++ ">" ++ toString (rem - (j + 1)))) ++
-  ":p=" ++ showOptNat p.rest.head? ++ ">" ++ toString rem ++ ":s=" ++ toString rem ++ ":h=ok"
+  ":p=" ++ showOptNat p.rest.head? ++ ">" ++ toString rem ++ ":s=" ++ toString rem ++ ":h=ok" ++
+  (if (providedKs full.length).contains p.k then showProvided full p.rest else "")
 
 def showRegObs (n : Nat) (o : RegObs) : String :=
   "t=" ++ String.ofList (packHex o.tests) ++ ",c=" ++ toString o.count ++ ",i=" ++ showIter (64 * n) o.iter ++
   ",d=" ++ o.disp ++ ",g=" ++ (if o.dbg = o.disp then "same" else o.dbg) ++
-  ",it=" ++ "+".intercalate (o.probes.map (showProbe (64 * n)))
+  ",x=ok" ++      -- the harness-side checks of the other trait entry points (not modelled: an oracle inside the harness)
+  ",it=" ++ "+".intercalate (o.probes.map (showProbe (64 * n) o.iter))
 
 def showObs (n : Nat) (o : Obs) : String :=
   " ".intercalate (o.regs.map (showRegObs n)) ++ " eq=" ++ "/".intercalate (o.eqs.map showBits01) ++
-  " log=" ++ (if o.log.isEmpty then "-" else showBits01 o.log)
+  " ne=" ++ "/".intercalate (o.nes.map showBits01) ++
+  " log=" ++ (if o.log.isEmpty then "-" else showBits01 o.log) ++
+  " obs=" ++ (if o.olog.isEmpty then "-" else "#".intercalate (o.olog.map (showRegObs n)))
 
 end Rlib.Bitset
